@@ -94,6 +94,39 @@ CHECKS = {
          "DOPs and communication parameters.",
     note="Trusted: the XML-level model vlib/models/clidb.py, Hypothesis; a recorder replaces rich_print (harness side). Distinct request prefixes per layer are an envelope condition.",
     design="3/C18"),
+ "C09": dict(
+    technique="reference model of ODX value inheritance over Hypothesis-generated layer hierarchies; exhaustive small scopes per category",
+    text="Bounded exploration: hierarchies of 1..5 layers of all five types (single/multiple parents, diamonds, several documents) x 17 object "
+         "categories x NOT-INHERITED lists; per layer and category the visible {short name -> uid} must equal the reference model "
+         "(local overrides, highest-priority parent wins), loading raises in strict mode iff an unsettled top-priority clash exists, a parent "
+         "loaded alone equals the parent loaded with children, and a PDU of an inherited service decodes on the inheriting layer iff the service is visible. "
+         "Complete enumeration of 2-layer x 2-name placements for every category (3 layers for six categories in thorough).",
+    note="Trusted: vlib/models/inherit.py and hier_xml.py (no odxtools import in the model), Hypothesis. Non-strict mode and cross-kind DOP overriding are not asserted.",
+    design="3/C09"),
+ "C10": dict(
+    technique="reference ODXLINK/SNREF resolver over Hypothesis-generated multi-container document sets with colliding local ids; uid tagging of every object",
+    text="Bounded exploration: document sets of 1..3 containers x layers with local ids deliberately re-used across documents, 28 reference kinds in "
+         "ID-REF and SNREF form, DOCREF variants, IMPORT-REFs, inherited SNREFs, and dangling/ambiguous references; each resolved attribute must "
+         "carry the uid the reference resolver expects, sets with a bad reference must raise in strict mode and never bind elsewhere, valid sets "
+         "must load, retarget_snrefs rebinds to the target layer's view. Cases the ODX text does not decide are classed 'loose' and not asserted.",
+    note="Trusted: vlib/models/odxlink.py (reference resolver + emitter), Hypothesis. Uncovered reference kinds are listed in notes/C10.md.",
+    design="3/C10"),
+ "C11": dict(
+    technique="enumerated single-attribute perturbation matrix (dataclass type x field) + Hypothesis-composed perturbations; write/load round trip with a recursive dataclass differ",
+    text="Bounded exploration / fault enumeration over the object graph of the shipped PDX files: 715 sound single-field perturbations of 270 "
+         "Class.field pairs (quick: seed-selected 1/8 slice; thorough: all) and composed perturbations; each perturbed database is written and "
+         "reloaded: written XML is well formed, reload succeeds, containers/comparam subsets/specs are dataclass-equal (first differing Class.field "
+         "is the root-cause bucket), write(load(write(db))) is byte-identical, encode/decode behaviour is identical, and every file order and entry "
+         "point (load_pdx_file, load_file, load_directory, load_files) yields an equal database.",
+    note="Trusted: vlib/models/dcdiff.py, pdxperturb.py (soundness rules for perturbed values), Hypothesis. Only classes present in the shipped examples are reached.",
+    design="3/C11"),
+ "C15": dict(
+    technique="reference model of communication-parameter resolution over generated hierarchies and comparam subsets/specs",
+    text="Bounded exploration: C09-style hierarchies with a generated COMPARAM-SUBSET/-SPEC, COMPARAM-REFs with and without protocol qualifier, simple "
+         "and complex values, omitted and empty values on any subset of layers; the effective set per (parameter, protocol), get_comparam with "
+         "None / name / Protocol object, get_value/get_subvalue default fallback and 13 typed accessors must equal the reference model and never raise.",
+    note="Trusted: vlib/models/comparam.py, Hypothesis. Equal-priority ambiguities accept either instance.",
+    design="3/C15"),
  "C16": dict(
     technique="Hypothesis RuleBasedStateMachine against a list model + exhaustive enumeration of short histories",
     text="Bounded exploration: random long histories (rule-based state machine, model = Python list of the same objects, "
